@@ -93,6 +93,7 @@ func TemplatePaths(t reflect.Type) []string {
 var fieldRefPaths = [][]string{
 	{"fields"},
 	{"contact", "fields"},
+	{"run", "contact", "fields"},
 	{"parent", "fields"},
 	{"parent", "contact", "fields"},
 	{"child", "fields"},
